@@ -22,12 +22,13 @@ EXPLANATION = ("(a) Purity: the functional helpers run on symbolic tensors whose
                "any argument element can differ from its pre-state, for every NaN pattern (incl. missing anchor). (b) Missing stays missing: a node that is NaN "
                "in the labels is NaN in the derived keypoints and has an all-zero confidence-map channel. (c) Datasets: the four Dataset classes over duck-typed "
                "labels with symbolic keypoints / missing flags, user + predicted + empty instances: length = number of non-empty (user) instances/frames; "
-               "ds[i] after every index sequence of length <= 3 equals the first ds[i]; the cache is unchanged.")
+               "ds[i] after every index sequence of length <= 3 equals the first ds[i]; the cache is unchanged; for the per-instance dataset (a user instance listed after "
+               "an empty one) sample i carries the missing pattern and node offset of the i-th NON-EMPTY instance (D5).")
 ASSUMPTIONS = ["images are concrete 8x8 (resize/normalise kernels run for real); keypoints symbolic with one missing flag per point", "augmentation off",
                "crop_and_resize is the geometry-only stub (records the box, returns a zero crop): pixel content of crops is outside this check (C04)",
                "labels are duck-typed stand-ins for sleap_io objects"]
 STUBS = ["providers/custom_datasets/instance_cropping: np -> numpy proxy, torch -> proxy (legacy constructor, from_numpy on object arrays)", "crop_and_resize -> geometry-only stub", "loguru -> no-op"]
-OUTSIDE = ["np_chunks / litdata frameworks (C18)", "augmentation on", "more than 2 frames x 2 instances x 2 nodes"]
+OUTSIDE = ["np_chunks / litdata frameworks (C18)", "augmentation on", "more than 2 frames x 3 user instances (one empty) x 2 nodes"]
 REQUIRED_WITNESSES = ["path-with-missing-anchor", "path-with-present-anchor"]
 
 
@@ -176,8 +177,9 @@ def _run_purity(cfg):
 
 
 # ------------------------------------------------------------------ datasets
-def _make_labels(sym=True, env=None):
-    """2 frames; frame 0: user A (2 nodes), empty user instance, predicted P; frame 1: user C.  Keypoints symbolic (or concrete from env)."""
+def _make_labels(sym=True, env=None, with_b=False):
+    """2 frames; frame 0: user A (2 nodes), empty user instance, [user B after the empty one,] predicted P; frame 1: user C.
+    Keypoints symbolic (or concrete from env)."""
     import numpy as np
     from symx.xf import XF
     from symx.numpyfe import SymNd
@@ -194,7 +196,11 @@ def _make_labels(sym=True, env=None):
         return a.view(SymNd) if sym else a
     empty = np.full((2, 2), np.nan)
     vid = fakes.FVideo(2, 8, 8)
-    lf0 = fakes.FLF(vid, 0, [fakes.FInst(inst("A"), True, "A"), fakes.FInst(empty.astype(object).view(SymNd) if sym else empty, True, "E"), fakes.FInst(inst("P"), False, "P")], fakes.ramp_image(8, 8, 1, 0))
+    insts0 = [fakes.FInst(inst("A"), True, "A"), fakes.FInst(empty.astype(object).view(SymNd) if sym else empty, True, "E")]
+    if with_b:
+        insts0.append(fakes.FInst(inst("B"), True, "B"))
+    insts0.append(fakes.FInst(inst("P"), False, "P"))
+    lf0 = fakes.FLF(vid, 0, insts0, fakes.ramp_image(8, 8, 1, 0))
     lf1 = fakes.FLF(vid, 3, [fakes.FInst(inst("C"), True, "C")], fakes.ramp_image(8, 8, 1, 1))
     return fakes.FLabels([lf0, lf1], [vid])
 
@@ -260,7 +266,9 @@ def _run_dataset(cfg):
     rep = Report(cfg)
     cls, anchor, L = cfg["cls"], cfg["anchor"], cfg["seqlen"]
     ex = Explorer([], timeout_ms=60000, exp_mode="uf", fork_specials=(cls == "BottomUpDataset"), max_paths=4000)
-    names = ("A", "P", "C")
+    with_b = cls == "CenteredInstanceDataset"  # a user instance listed AFTER an empty one: per-instance samples must still come from it
+    names = ("A", "B", "P", "C") if with_b else ("A", "P", "C")
+    users = ("A", "B", "C") if with_b else ("A", "C")
 
     def extract(model, env):
         return {"labels": {f"{n}_{k}": ([float("nan")] * 2 if env[f"{n}_{k}#nan"] else [float(env[f"{n}_{k}_x"]), float(env[f"{n}_{k}_y"])]) for n in names for k in range(2)},
@@ -268,7 +276,7 @@ def _run_dataset(cfg):
 
     def path():
         with T.SymMode():
-            labels = _make_labels(True)
+            labels = _make_labels(True, with_b=with_b)
             try:
                 ds = _make_ds(cls, anchor, labels)
                 n = len(ds)
@@ -302,8 +310,8 @@ def _run_dataset(cfg):
         def all_missing(name):
             return ex.query([xf.zb(Not(And(z3.Bool(f"{name}_0#nan"), z3.Bool(f"{name}_1#nan"))))]).status == "unsat"
         # D1: length = number of non-empty user instances (centered-instance) / frames with one (others)
-        nonempty = {nm: not all_missing(nm) for nm in ("A", "C")}
-        want = (int(nonempty["A"]) + int(nonempty["C"])) if cls == "CenteredInstanceDataset" else (int(nonempty["A"]) + int(nonempty["C"]))
+        nonempty = {nm: not all_missing(nm) for nm in users}
+        want = sum(int(nonempty[nm]) for nm in users)
         ok = n == want
         rep.record("D1-length-counts-only-non-empty-user-instances", "unsat" if ok else "sat")
         if not ok:
@@ -338,11 +346,25 @@ def _run_dataset(cfg):
                 rep.record(name, "unsat")
         # D4: missing stays missing in the derived keypoints
         key = "instance" if cls == "CenteredInstanceDataset" else "instances"
-        order = [nm for nm in ("A", "C") if nonempty[nm]]
+        order = [nm for nm in users if nonempty[nm]]
         for i, nm in enumerate(order):
             if key not in first[i]:
                 continue
             shp, vals = first[i][key]
+            if cls == "CenteredInstanceDataset":
+                # D5: sample i is derived from the i-th NON-EMPTY user instance: its missing pattern is that instance's, node by node (iff)
+                for k in range(2):
+                    fl = z3.Bool(f"{nm}_{k}#nan")
+                    vx, vy = XF.of(vals[k * 2]), XF.of(vals[k * 2 + 1])
+                    discharge(ex, rep, "D5-sample-i-comes-from-the-i-th-non-empty-instance", And(xf.Implies(Not(fl), And(Not(vx.nan), Not(vy.nan))), xf.Implies(fl, And(vx.nan, vy.nan))),
+                              on_sat=lambda m, env, nm=nm, k=k, i=i: (f"wrong-instance:{cls}", f"sample {i} should come from instance {nm} but node {k}'s missing flag differs from the label's", extract(m, env)))
+                # ... and, both nodes labelled, the offset between its two nodes is that instance's (crops translate, scale is 1)
+                f0, f1 = z3.Bool(f"{nm}_0#nan"), z3.Bool(f"{nm}_1#nan")
+                s0x, s0y, s1x, s1y = (XF.of(vals[j]) for j in range(4))
+                dx_l, dy_l = z3.Real(f"{nm}_1_x") - z3.Real(f"{nm}_0_x"), z3.Real(f"{nm}_1_y") - z3.Real(f"{nm}_0_y")
+                discharge(ex, rep, "D5-sample-i-comes-from-the-i-th-non-empty-instance",
+                          xf.Implies(And(Not(f0), Not(f1)), And(xf.rcmp("==", xf.rsub(s1x.v, s0x.v), dx_l), xf.rcmp("==", xf.rsub(s1y.v, s0y.v), dy_l))),
+                          on_sat=lambda m, env, nm=nm, i=i: (f"wrong-instance:{cls}", f"sample {i} should come from instance {nm} but the offset between its nodes is not that instance's", extract(m, env)))
             # node k of the FIRST instance slot is label nm's node k
             for k in range(2):
                 fl = z3.Bool(f"{nm}_{k}#nan")
@@ -378,7 +400,9 @@ def replay(cfg, inputs, obligation):
         env[f"{k}#nan"] = bool(np.isnan(v[0]))
         env[f"{k}_x"], env[f"{k}_y"] = (0.0, 0.0) if np.isnan(v[0]) else (v[0], v[1])
     import kornia.geometry.transform  # real crop
-    labels = _make_labels(False, env)
+    with_b = cfg["cls"] == "CenteredInstanceDataset"
+    users = ("A", "B", "C") if with_b else ("A", "C")
+    labels = _make_labels(False, env, with_b=with_b)
     try:
         ds = _make_ds(cfg["cls"], cfg["anchor"], labels)
         n = len(ds)
@@ -392,7 +416,7 @@ def replay(cfg, inputs, obligation):
         except Exception as e:
             return True, f"ds[i] raised {type(e).__name__}: {e}"
     if obligation.startswith("D1"):
-        want = sum(1 for nm in ("A", "C") if not (env[f"{nm}_0#nan"] and env[f"{nm}_1#nan"]))
+        want = sum(1 for nm in users if not (env[f"{nm}_0#nan"] and env[f"{nm}_1#nan"]))
         return n != want, f"len={n} expected {want}"
 
     def eq(a, b):
@@ -404,15 +428,22 @@ def replay(cfg, inputs, obligation):
             elif x != y:
                 return False
         return True
-    if obligation.startswith("D4"):
+    if obligation.startswith(("D4", "D5")):
         key = "instance" if cfg["cls"] == "CenteredInstanceDataset" else "instances"
-        order = [nm for nm in ("A", "C") if not (env[f"{nm}_0#nan"] and env[f"{nm}_1#nan"])]
+        order = [nm for nm in users if not (env[f"{nm}_0#nan"] and env[f"{nm}_1#nan"])]
         for i, nm in enumerate(order):
             s = ds[i][key].reshape(-1, 2, 2)[0] if cfg["cls"] != "CenteredInstanceDataset" else ds[i][key].reshape(2, 2)
             for k in range(2):
                 if env[f"{nm}_{k}#nan"] and not torch.isnan(s[k]).all():
                     return True, f"label {nm} node {k} is missing but the sample has {s[k].tolist()}"
-        return False, "missing stays missing"
+                if obligation.startswith("D5") and not env[f"{nm}_{k}#nan"] and torch.isnan(s[k]).any():
+                    return True, f"sample {i} should come from instance {nm}; its node {k} is labelled but the sample has {s[k].tolist()}"
+            if obligation.startswith("D5") and not env[f"{nm}_0#nan"] and not env[f"{nm}_1#nan"]:
+                d = (s[1] - s[0]).tolist()
+                want_d = [env[f"{nm}_1_x"] - env[f"{nm}_0_x"], env[f"{nm}_1_y"] - env[f"{nm}_0_y"]]
+                if max(abs(d[0] - want_d[0]), abs(d[1] - want_d[1])) > 1e-3:
+                    return True, f"sample {i} should come from instance {nm}: node offset {d} != labelled {want_d}"
+        return False, "missing pattern of every sample is its instance's"
     first = {i: {k: (v.clone() if isinstance(v, torch.Tensor) else v) for k, v in ds[i].items()} for i in range(n)}
     seq = inputs.get("seq") or [i for i in range(n)] * 2
     for i in seq:
